@@ -238,6 +238,11 @@ def main():
                 t_ = ''.join(w_)
                 for tail in range(100):          # every pair of final digits: whichever one is right on that day
                     clock_calls.append({'mod': nm, 'fn': 'validate', 'args': [t_[:-2] + '%02d' % tail], 'mutate': False})
+                if y_ == yr + 1:
+                    # ... and what is derived from them (the century of a two-digit year is chosen relative to today)
+                    for g_ in c12.getters(mod_)[:3]:
+                        for tail in range(100):
+                            clock_calls.append({'mod': nm, 'fn': g_, 'args': [t_[:-2] + '%02d' % tail], 'mutate': False})
     clock_pair = None
     if clock_calls:
         clock_pair = (len(jobs), len(jobs) + 1)
